@@ -40,6 +40,32 @@ def result_bounds_of(inst, k: int = 3) -> list:
     return out
 
 
+def record_bounds_of(inst, wit: list, fallback: list) -> tuple:
+    """The bin bounds in the PackingResult derived for the first witness packing; (bounds, error)."""
+    if not wit:
+        return fallback, None
+    try:
+        bb = bp.result_record(inst, wit[0]["rows"], wit[0]["nb"]).bin_bounds
+        return [small(int(bb[k])) for k in ("bins.lowerBound", "bins.lowerBound.geometric", "bins.lowerBound.damv")], None
+    except (ValueError, TypeError, KeyError) as ex:
+        return fallback, f"{type(ex).__name__}: {str(ex)[:200]}"
+
+
+def attach_records(rep: Report, cases: list) -> None:
+    """The bounds inside the PackingResult records the library derives for the witnesses, in the order of the cases
+    (instance names repeat: nothing remembered from an earlier instance may leak into a later record)."""
+    n_rec = 0
+    for c in cases:
+        if c.get("wit") and len(c["items"]) and not c["id"].startswith("huge") and "plbs" not in c:
+            inst_c = bp.make_instance(c["W"], c["H"], c["items"])
+            c["plbs"], err = record_bounds_of(inst_c, c["wit"], [])
+            n_rec += 1
+            if err is not None:
+                rep.violations.append(core.Verdict(c["id"], "result-record-rejects-feasible-packing",
+                                                   {**c, "error": err}))
+    rep.family("result-records-of-witness-packings", n_rec, n_rec)
+
+
 def guillotine(rng: random.Random, max_side: int, k: int, cuts: int):
     """k bins dissected by guillotine cuts; returns (W, H, items, witness_rows, k')."""
     W, H = rng.randint(1, max_side), rng.randint(1, max_side)
@@ -134,6 +160,7 @@ def run(prop: str, tier: str, seed: int) -> int:
     finally:
         import shutil
         shutil.rmtree(dump.parent, ignore_errors=True)
+    attach_records(rep, cases)
     vs = core.validate("binpack/Trace_LB", cases, shards=14)
     core.classify(rep, vs, {c["id"]: c for c in cases}, family="tlc-optimum")
     tight = sum(1 for c in cases if c["lbs"][0] == c["opt"])
@@ -207,6 +234,7 @@ def run(prop: str, tier: str, seed: int) -> int:
         cases.append({"id": f"huge-area-{k}", **bp.inst_record(inst), "lbs": bounds_of(inst)[:2], "rlbs": result_bounds_of(inst, 2), "wit": []})
         rep.family("area-beyond-2^53", 1, 1)
         rep.nontrivial += 1
+    attach_records(rep, cases)
     vs = core.validate("binpack/Trace_LB", cases, shards=14)
     core.classify(rep, vs, {c["id"]: c for c in cases}, family="recorded")
     rep.traces += len(cases)
@@ -223,5 +251,12 @@ def run(prop: str, tier: str, seed: int) -> int:
 def replay(prop: str, case: dict) -> dict:
     inst = bp.make_instance(case["W"], case["H"], case["items"])
     rec = {"id": "replay", **bp.inst_record(inst), "lbs": bounds_of(inst), "rlbs": result_bounds_of(inst), "wit": case["wit"]}
+    mode = "re-executed"
+    if case.get("wit"):
+        rec["plbs"], err = record_bounds_of(inst, case["wit"], [])
+        mode = ("re-executed (one instance in a fresh process: what the library remembers between the records of "
+                "different instances is only exercised by the full run)")
+        if err is not None:
+            return {"clause": "result-record-rejects-feasible-packing", "case": {**rec, "error": err}, "mode": mode}
     vs = core.validate("binpack/Trace_LB", [rec])
-    return {"clause": vs["replay"], "case": rec}
+    return {"clause": vs["replay"], "case": rec, "mode": mode}
